@@ -11,6 +11,12 @@ import json, os, re, subprocess, sys, time, shutil, hashlib, concurrent.futures
 VERIF = os.path.dirname(os.path.dirname(os.path.abspath(__file__)))
 CONTRACTS = os.path.join(VERIF, 'contracts')
 BUILD = os.path.join(VERIF, 'build')
+import atexit
+_MAIN_PID = os.getpid()
+def _cleanup_build():
+    if os.getpid() == _MAIN_PID:
+        shutil.rmtree(os.path.join(BUILD, 'p%d' % _MAIN_PID), ignore_errors=True)
+atexit.register(_cleanup_build)
 MEM_KB = 12 * 1024 * 1024          # ulimit -v per tool process
 CANARY_TAG = 'VCANARY'
 
@@ -96,7 +102,7 @@ def include_flags(repo, unit):
 def run_group(repo, unit, g, variant_defs=(), tag=''):
     """returns a dict describing the outcome of one enforcement run"""
     name = g['name'] + tag
-    wd = os.path.join(BUILD, unit['unit'], name)
+    wd = os.path.join(BUILD, 'p%d' % os.getpid(), unit['unit'], name)      # per process: concurrent checks may share units
     shutil.rmtree(wd, ignore_errors=True)
     os.makedirs(wd)
     res = {'unit': unit['unit'], 'group': name, 'entry': g['entry'], 'enforce': g.get('enforce'),
